@@ -20,6 +20,7 @@ import (
 	"os"
 	"sort"
 	"strconv"
+	"strings"
 
 	"github.com/samber/lo"
 	appsv1 "k8s.io/api/apps/v1"
@@ -122,6 +123,7 @@ type sim struct {
 	marks   sets.Set[string]
 	tw      *trace.Writer
 	nMem    int
+	nRich   int // quiescent points at which some state node carries pods
 	created map[string]*v1.NodeClaim // NodeClaims as created (for the provisioner's seed)
 }
 
@@ -426,6 +428,12 @@ func (s *sim) mem() {
 	}
 	s.nMem++
 	m := s.project(s.cl)
+	for _, v := range m["sn"].(trace.M) {
+		if v.(trace.M)["req"].(trace.M)["pods"].(int) > 0 {
+			s.nRich++
+			break
+		}
+	}
 	m["e"] = "Mem"
 	m["api"] = s.apiSnapshot()
 	m["fresh"] = s.fresh()
@@ -593,9 +601,31 @@ func (s *sim) env(st Step) error {
 	return nil
 }
 
+// objKey: the cache key the delivered object maps to at delivery time ("-" none): a Node's provider id (its name
+// when unmanaged without id), a NodeClaim's provider id.
+func (s *sim) objKey(kind, name string) string {
+	switch kind {
+	case "Node":
+		if n := s.getNode(name); n != nil {
+			if n.Spec.ProviderID != "" {
+				return n.Spec.ProviderID
+			}
+			if n.Labels[v1.NodePoolLabelKey] == "" {
+				return n.Name
+			}
+		}
+	case "NodeClaim":
+		if c := s.getClaim(name); c != nil && c.Status.ProviderID != "" {
+			return c.Status.ProviderID
+		}
+	}
+	return "-"
+}
+
 func (s *sim) deliver(kind, name string) error {
 	var res reconcile.Result
 	var err error
+	okey := s.objKey(kind, name)
 	req := reconcile.Request{NamespacedName: types.NamespacedName{Name: name}}
 	panicked := "-"
 	func() {
@@ -638,7 +668,7 @@ func (s *sim) deliver(kind, name string) error {
 		}
 	}
 	s.tw.Emit(trace.M{"e": "Deliver", "kind": kind, "name": name, "requeue": requeue, "err": err != nil, "panic": panicked,
-		"keys": keys})
+		"keys": keys, "okey": okey})
 	return nil
 }
 
@@ -657,7 +687,7 @@ func (s *sim) step(st Step) error {
 			s.cl.UnmarkForDeletion(st.X)
 			s.marks.Delete(st.X)
 		}
-		s.tw.Emit(trace.M{"e": "Step", "a": st.A, "x": st.X, "y": st.Y, "z": st.Z, "kind": "-", "hit": hit})
+		s.tw.Emit(trace.M{"e": "Step", "a": st.A, "x": st.X, "y": st.Y, "z": st.Z, "kind": "-", "hit": hit, "objs": [][]string{}})
 		return nil
 	case "Seed":
 		// the provisioner's post-create cluster.UpdateNodeClaim with the object as it was created
@@ -667,7 +697,7 @@ func (s *sim) step(st Step) error {
 		}
 		s.cl.UpdateNodeClaim(nc.DeepCopy())
 		s.touch("ClaimGC", st.X)
-		s.tw.Emit(trace.M{"e": "Step", "a": st.A, "x": st.X, "y": st.Y, "z": st.Z, "kind": "ClaimGC", "hit": true})
+		s.tw.Emit(trace.M{"e": "Step", "a": st.A, "x": st.X, "y": st.Y, "z": st.Z, "kind": "ClaimGC", "hit": true, "objs": [][]string{}})
 		return nil
 	case "Restart":
 		s.restart()
@@ -687,7 +717,13 @@ func (s *sim) step(st Step) error {
 				s.touch("Pod", n)
 			}
 		}
-		s.tw.Emit(trace.M{"e": "Step", "a": st.A, "x": st.X, "y": st.Y, "z": st.Z, "kind": "-", "hit": true})
+		objs := [][]string{}
+		for k := range s.pend {
+			i := strings.Index(k, "/")
+			objs = append(objs, []string{k[:i], k[i+1:]})
+		}
+		sort.Slice(objs, func(i, j int) bool { return objs[i][0]+objs[i][1] < objs[j][0]+objs[j][1] })
+		s.tw.Emit(trace.M{"e": "Step", "a": st.A, "x": st.X, "y": st.Y, "z": st.Z, "kind": "-", "hit": true, "objs": objs})
 		return nil
 	}
 	if err := s.env(st); err != nil {
@@ -708,12 +744,12 @@ func (s *sim) step(st Step) error {
 	if kind == "DaemonSet" {
 		name = dsName
 	}
-	s.tw.Emit(trace.M{"e": "Step", "a": st.A, "x": name, "y": st.Y, "z": st.Z, "kind": kind, "hit": true})
+	s.tw.Emit(trace.M{"e": "Step", "a": st.A, "x": name, "y": st.Y, "z": st.Z, "kind": kind, "hit": true, "objs": [][]string{}})
 	return nil
 }
 
 // RunOne executes one behaviour in a fresh world.
-func RunOne(u Universe, b Behaviour, tw *trace.Writer) (int, error) {
+func RunOne(u Universe, b Behaviour, tw *trace.Writer) (int, int, error) {
 	w := world.New()
 	ctx := world.Ctx()
 	s := &sim{w: w, ctx: ctx, u: u, pend: map[string]bool{}, tw: tw, created: map[string]*v1.NodeClaim{}}
@@ -735,11 +771,11 @@ func RunOne(u Universe, b Behaviour, tw *trace.Writer) (int, error) {
 	s.restart()
 	for i, st := range b.Steps {
 		if err := s.step(st); err != nil {
-			return s.nMem, fmt.Errorf("step %d: %w", i, err)
+			return s.nMem, s.nRich, fmt.Errorf("step %d: %w", i, err)
 		}
 		s.mem()
 	}
-	return s.nMem, nil
+	return s.nMem, s.nRich, nil
 }
 
 func Run(args []string) error {
@@ -763,15 +799,17 @@ func Run(args []string) error {
 		return err
 	}
 	mems := make([]int, 0, len(inp.Behs))
+	rich := make([]int, 0, len(inp.Behs))
 	for i, b := range inp.Behs {
-		n, err := RunOne(inp.U, b, tw)
+		n, r, err := RunOne(inp.U, b, tw)
 		if err != nil {
 			return fmt.Errorf("behaviour %d (%s): %w", i, b.Tag, err)
 		}
 		mems = append(mems, n)
+		rich = append(rich, r)
 	}
 	paths := tw.Close()
-	sum, _ := json.Marshal(trace.M{"traces": tw.N, "lines": tw.Lines, "files": paths, "mems": mems})
+	sum, _ := json.Marshal(trace.M{"traces": tw.N, "lines": tw.Lines, "files": paths, "mems": mems, "rich": rich})
 	fmt.Println(string(sum))
 	return nil
 }
